@@ -132,6 +132,7 @@ XNone == {}
 CNone == {}
 C48 == {4, 8}
 KStrm == {"pub1", "pubs1", "pubs0"}
+KStrm1 == {"pubs1", "pub1"}
 KStrmCtl == {"pub1", "pubs1", "ping"}
 ENone == {}
 EAll == {"peer_close", "raw", "close", "force"}
